@@ -1034,6 +1034,33 @@ type manyG struct {
 // elide-many: a lexer with many rules (the elided types are declared last, so their token types are far below -64; also
 // more than 64 rules before them) and re-spaced inputs: "rules\tinput\toutcome".
 func elideMany(args []string) error {
+	// a parser for one production (ParserForProduction) ignores the same elided tokens as the parser it comes from
+	{
+		type assign struct {
+			Key string `@Ident "="`
+			Val string `@Ident`
+		}
+		type file struct {
+			As []*assign `@@*`
+		}
+		lx := lexer.MustSimple([]lexer.SimpleRule{{Name: "Ident", Pattern: `[a-z]+`}, {Name: "Punct", Pattern: `[=()]`}, {Name: "Comment", Pattern: `#[a-z]*#`}, {Name: "Whitespace", Pattern: `\s+`}})
+		root, err := participle.Build[file](participle.Lexer(lx), participle.Elide("Comment", "Whitespace"))
+		if err != nil {
+			return err
+		}
+		sub, err := participle.ParserForProduction[assign](root)
+		if err != nil {
+			return err
+		}
+		for _, in := range []string{"a=b", "a = b", " a #c# = b ", "a=\nb#z#"} {
+			v, err := sub.ParseString("", in)
+			res := "err"
+			if err == nil {
+				res = v.Key + "," + v.Val
+			}
+			fmt.Printf("production\t%q\t%s\n", in, res)
+		}
+	}
 	for _, nrules := range []int{5, 62, 63, 64, 65, 70, 130} {
 		var rules []lexer.SimpleRule
 		for i := 0; i < nrules; i++ {
@@ -1117,6 +1144,40 @@ func posfieldsStatic(args []string) error {
 		*out = append(*out, key(n.Pos, n.EndPos, n.Tokens))
 		for _, k := range n.Kids {
 			walkR(k, out)
+		}
+	}
+	// the token lists and positions of an AST stay what they were when further documents are parsed with the same parser
+	{
+		first, err := pp.ParseString("one.txt", "alpha ( beta gamma ( delta ) )")
+		if err == nil {
+			snap := func(n *nodePlain) string {
+				var sb strings.Builder
+				var walk func(n *nodePlain)
+				walk = func(n *nodePlain) {
+					fmt.Fprintf(&sb, "%s@%d-%d[", n.Name, n.Pos.Offset, n.EndPos.Offset)
+					for _, t := range n.Tokens {
+						fmt.Fprintf(&sb, "%s:%d:%s ", t.Value, t.Pos.Offset, t.Pos.Filename)
+					}
+					sb.WriteString("]")
+					for _, k := range n.Kids {
+						walk(k)
+					}
+				}
+				walk(n)
+				return sb.String()
+			}
+			before := snap(first)
+			for i := 0; i < 40; i++ {
+				_, _ = pp.ParseString("two.txt", "one ( two three four five ( six seven ) eight ) ")
+				_, _ = pp.ParseString("three.txt", "x")
+				_, _ = pp.ParseString("bad.txt", "( ( (")
+			}
+			status := "OK"
+			if after := snap(first); after != before {
+				status = "BAD"
+				before = "before " + before + "; after further parses " + after
+			}
+			fmt.Printf("%s\t\"retained AST\"\t%s\n", status, before)
 		}
 	}
 	for _, in := range []string{"a", "a ( b c )", " a(b(c d) e ( f ) )  ", "x ( )"} {
